@@ -240,4 +240,151 @@ theorem tie_cut_select (n : Net) (keep : Id → Bool) :
       List.filter_nil, List.append_nil]
     exact ⟨h1, h2, h3⟩
 
+/-! ### scenario level (scenario/scenario.py): look-up, `KeyError`, network-level removal, id pool -/
+
+theorem andThen_pure (r : Scn × Option Err) : PyR.andThen r (fun s => (s, none)) = r := by
+  rcases r with ⟨s, _ | e⟩ <;> rfl
+
+theorem find_isNone {α : Type} (key : α → Id) (xs : List α) (i : Id) :
+    (xs.find? (fun s => key s == i)).isNone = !((xs.map key).contains i) := by
+  induction xs with
+  | nil => simp
+  | cons x xs ih =>
+    by_cases h : key x = i
+    · simp [List.find?_cons, h]
+    · have h' : (key x == i) = false := by simpa using h
+      have h'' : (i == key x) = false := by simpa using (fun e : i = key x => h e.symm)
+      simp only [List.find?_cons, h', ih, List.map_cons, List.contains_cons, h'', Bool.false_or]
+
+theorem forEach_eq {α : Type} (one : Scn → α → Scn × Option Err) (key : α → Id) (g : Scn → List Id → Scn × Option Err)
+    (h0 : ∀ s, g s [] = (s, none))
+    (hs : ∀ s x is, g s (key x :: is) = PyR.andThen (one s x) (fun s' => g s' is)) (s : Scn) (xs : List α) :
+    PyR.forEach one s xs = g s (xs.map key) := by
+  induction xs generalizing s with
+  | nil => simp only [PyR.forEach, List.map_nil, h0]
+  | cons x xs ih =>
+    simp only [PyR.forEach, List.map_cons, hs]
+    congr 1
+    funext s'
+    exact ih s'
+
+theorem andThen_match (r : Scn × Option Err) (k : Scn → Scn × Option Err) :
+    (match r with | (s2, none) => k s2 | r => r) = PyR.andThen r k := by
+  rcases r with ⟨s, _ | e⟩ <;> rfl
+
+theorem tie_scn_remove_traffic_sign_one (s : Scn) (e : Elem) :
+    Gen.Scenario_remove_traffic_sign_one s e =
+      if s.net.sids.contains e.1 = true then ({ s with net := s.net.removeSign e.1 } : Scn).idsRemove e.1 else (s, some .key) := by
+  unfold Gen.Scenario_remove_traffic_sign_one
+  have hn : (PyR.findSign s.net e.1).isNone = !(s.net.sids.contains e.1) := find_isNone (fun (x : Elem) => x.1) s.net.signs e.1
+  simp only [hn, andThen_pure, PyR.idSetRemove, tie_remove_traffic_sign]
+  cases s.net.sids.contains e.1 <;> simp
+
+theorem tie_scn_remove_traffic_sign_list (s : Scn) (es : List Elem) :
+    Gen.Scenario_remove_traffic_sign_list s es = s.removeSigns (es.map (·.1)) := by
+  unfold Gen.Scenario_remove_traffic_sign_list
+  simp only [andThen_pure]
+  refine forEach_eq _ (·.1) Scn.removeSigns (fun _ => rfl) ?_ s es
+  intro s x is
+  rw [tie_scn_remove_traffic_sign_one, Scn.removeSigns]
+  by_cases h : s.net.sids.contains x.1 = true
+  · rw [if_pos h, if_pos h]; exact andThen_match _ _
+  · rw [if_neg h, if_neg h]; rfl
+
+theorem tie_scn_remove_traffic_light_one (s : Scn) (e : Elem) :
+    Gen.Scenario_remove_traffic_light_one s e =
+      if s.net.tids.contains e.1 = true then ({ s with net := s.net.removeLight e.1 } : Scn).idsRemove e.1 else (s, some .key) := by
+  unfold Gen.Scenario_remove_traffic_light_one
+  have hn : (PyR.findLight s.net e.1).isNone = !(s.net.tids.contains e.1) := find_isNone (fun (x : Elem) => x.1) s.net.lights e.1
+  simp only [hn, andThen_pure, PyR.idSetRemove, tie_remove_traffic_light]
+  cases s.net.tids.contains e.1 <;> simp
+
+theorem tie_scn_remove_traffic_light_list (s : Scn) (es : List Elem) :
+    Gen.Scenario_remove_traffic_light_list s es = s.removeLights (es.map (·.1)) := by
+  unfold Gen.Scenario_remove_traffic_light_list
+  simp only [andThen_pure]
+  refine forEach_eq _ (·.1) Scn.removeLights (fun _ => rfl) ?_ s es
+  intro s x is
+  rw [tie_scn_remove_traffic_light_one, Scn.removeLights]
+  by_cases h : s.net.tids.contains x.1 = true
+  · rw [if_pos h, if_pos h]; exact andThen_match _ _
+  · rw [if_neg h, if_neg h]; rfl
+
+theorem forEach_idsRemove (s : Scn) (ks : List Incoming) :
+    PyR.forEach (fun self (inc : Incoming) => PyR.idSetRemove self inc.id) s ks = s.idsRemoveAll (ks.map (·.id)) := by
+  refine forEach_eq _ (·.id) Scn.idsRemoveAll (fun _ => rfl) ?_ s ks
+  intro s x is
+  rw [Scn.idsRemoveAll]; exact andThen_match _ _
+
+theorem tie_scn_remove_intersection_one (s : Scn) (i : Intersection) :
+    Gen.Scenario_remove_intersection_one s i = s.removeInter i.id := by
+  unfold Gen.Scenario_remove_intersection_one Scn.removeInter
+  simp only [PyR.findInter, andThen_pure, tie_remove_intersection, forEach_idsRemove]
+  rcases hf : List.find? (fun s => s.id == i.id) s.net.inters with _ | c
+  · simp [hf]
+  · simp only [hf, Option.isNone_some, Bool.false_eq_true, if_false, Option.map_some, Option.getD_some, Scn.idsRemoveAll,
+      andThen_match]
+    rfl
+
+theorem tie_scn_remove_intersection_list (s : Scn) (is : List Intersection) :
+    Gen.Scenario_remove_intersection_list s is = s.removeInters (is.map (·.id)) := by
+  unfold Gen.Scenario_remove_intersection_list
+  simp only [andThen_pure]
+  refine forEach_eq _ (·.id) Scn.removeInters (fun _ => rfl) ?_ s is
+  intro s x is
+  rw [tie_scn_remove_intersection_one, Scn.removeInters]; exact andThen_match _ _
+
+/-- `Scenario.remove_lanelet` (list form; `hang` := the model of remove_hanging_lanelet_members) is the model's `removeLanelets`. -/
+theorem tie_scn_remove_lanelet_list (s : Scn) (args : List RmArg) (r : Bool) :
+    Gen.Scenario_remove_lanelet_list s args r Scn.removeHanging = s.removeLanelets args r := by
+  have loop : ∀ s : Scn, PyR.forEach (fun self (la : RmArg) =>
+        if (PyR.findLanelet self.net la.id).isNone = true then (self, some Err.key)
+        else PyR.idSetRemove ({ self with net := Gen.LaneletNetwork_remove_lanelet self.net la.id } : Scn) la.id) s args
+      = s.removeLaneletLoop (args.map (·.id)) := by
+    intro s
+    refine forEach_eq _ (·.id) Scn.removeLaneletLoop (fun _ => rfl) ?_ s args
+    intro s x is
+    rw [Scn.removeLaneletLoop]
+    have hn : (PyR.findLanelet s.net x.id).isNone = !(s.net.lids.contains x.id) :=
+      find_isNone (fun (x : Lanelet) => x.id) s.net.lanelets x.id
+    simp only [hn, tie_remove_lanelet, PyR.idSetRemove]
+    by_cases h : s.net.lids.contains x.id = true
+    · rw [if_pos h, if_neg (by rw [h]; decide)]; exact andThen_match _ _
+    · rw [if_neg h, if_pos (by cases hc : s.net.lids.contains x.id <;> simp_all)]; rfl
+  unfold Gen.Scenario_remove_lanelet_list Scn.removeLanelets
+  simp only [andThen_pure, loop]
+  cases r
+  · rfl
+  · simp only [if_true]; exact (andThen_match _ _).symm
+
+theorem foldl_append_if (c : Elem → Bool) (xs : List Elem) (acc : List Id) :
+    xs.foldl (fun acc t => if c t then acc ++ [t.1] else acc) acc = acc ++ (xs.filter c).map (·.1) := by
+  induction xs generalizing acc with
+  | nil => simp
+  | cons x xs ih =>
+    simp only [List.foldl_cons, ih, List.filter_cons]
+    by_cases h : c x = true <;> simp [h]
+
+theorem contains_unionAll (ss : List (List Id)) (a : Id) : (PyR.unionAll ss).contains a = ss.flatten.contains a := by
+  have : a ∈ PyR.unionAll ss ↔ a ∈ ss.flatten := by simp [PyR.unionAll, List.mem_eraseDups]
+  by_cases h : a ∈ ss.flatten
+  · have h2 := this.mpr h
+    simp [h, h2]
+  · have h2 : ¬ a ∈ PyR.unionAll ss := fun x => h (this.mp x)
+    simp [h, h2]
+
+theorem mem_diff (D S : List Id) (a : Id) : PyR.mem a (PyR.diff D S) = (D.contains a && !S.contains a) := by
+  simp only [PyR.mem, PyR.diff]
+  by_cases h1 : a ∈ D <;> by_cases h2 : a ∈ S <;> simp [h1, h2]
+
+/-- What `remove_hanging_lanelet_members` hands to remove_traffic_sign / remove_traffic_light is exactly the model's
+`hangingSigns` / `hangingLights` (signs / lights referenced by an argument and by no remaining lanelet). -/
+theorem tie_hanging_members (s : Scn) (args : List RmArg) :
+    Gen.Scenario_hanging_members s args = (s.net.hangingSigns args, s.net.hangingLights args) := by
+  unfold Gen.Scenario_hanging_members Net.hangingSigns Net.hangingLights
+  simp only [PyR.idOfFound, mem_diff, contains_unionAll]
+  rw [foldl_append_if (fun t => _ && !_), foldl_append_if (fun t => _ && !_)]
+  simp only [List.nil_append, Net.sids, Net.tids, List.filter_map, List.flatMap_def, PyR.mem]
+  rfl
+
 end CR.Refs
